@@ -8,21 +8,21 @@ namespace Drv.C19
     sound: marked i ⇒ no j strictly dominates i;
     complete: unmarked i ⇒ some marked j weakly dominates i -/
 def specMask (fmat : List (List Rat)) (wt : List Rat) (mask : List Bool) : Bool × String :=
-  let rows := fmat.map (Pareto.applyWt wt)
+  let rows := fmat.map (Pareto.Q.applyWt wt)
   let n := rows.length
   if mask.length != n then (false, "mask length") else
   let idx := List.range n
   let get (i : Nat) : List Rat := rows.getD i []
-  let sound := idx.all (fun i => !mask.getD i false || idx.all (fun j => !Pareto.strictDom (get j) (get i)))
+  let sound := idx.all (fun i => !mask.getD i false || idx.all (fun j => !Pareto.Q.strictDom (get j) (get i)))
   let complete := idx.all (fun i => mask.getD i false ||
-      idx.any (fun j => mask.getD j false && Pareto.weakDom (get i) (get j)))
+      idx.any (fun j => mask.getD j false && Pareto.Q.weakDom (get i) (get j)))
   (sound && complete, s!"sound={sound} complete={complete}")
 
 def opPareto : J.Op := fun j => do
   let fmat ← J.field j "fmat" (J.mat J.rat)
   let wt ← J.field j "wt" (J.list J.rat)
-  pure <| J.obj [("idx", J.ofList J.ofNat (Pareto.efficientIdx fmat wt)),
-                 ("mask", J.ofList J.ofBool (Pareto.efficientMask fmat wt))]
+  pure <| J.obj [("idx", J.ofList J.ofNat (Pareto.Q.efficientIdx fmat wt)),
+                 ("mask", J.ofList J.ofBool (Pareto.Q.efficientMask fmat wt))]
 
 def opSpecPareto : J.Op := fun j => do
   let fmat ← J.field j "fmat" (J.mat J.rat)
@@ -39,17 +39,41 @@ def opDominates : J.Op := fun j => do
   let o2 ← J.field j "obj2" (J.list J.rat)
   let c1 ← J.field j "cv1" J.rat
   let c2 ← J.field j "cv2" J.rat
-  pure <| J.ofBool (Pareto.dominates o1 c1 o2 c2)
+  pure <| J.ofBool (Pareto.Q.dominates o1 c1 o2 c2)
 
 def opDist : J.Op := fun j => do
   let mat ← J.field j "mat" (J.mat J.rat)
   let sign ← J.field j "sign" (J.list J.rat)
   let line ← J.field j "line" (J.list J.rat)
   let guarded ← J.field j "guarded" J.bool
-  pure <| J.ofOpt (J.ofList J.ofRat) (Pareto.transDistSq guarded mat sign line)
+  pure <| J.ofOpt (J.ofList J.ofRat) (Pareto.Q.transDistSq guarded mat sign line)
+
+/-- Spec of the distance clause on the implementation's SQUARED distances (`null` = NaN / inf):
+    `Pareto.Q.specDist` (finite, one per point, equal to the geometric definition `Pareto.Q.geoDist`
+    within the harness' tolerance rule); `Props/C19.Q_spec_dist_sound` shows it accepts `c19.dist`'s
+    own answer.  The detail names the first offending point. -/
+def opSpecDist : J.Op := fun j => do
+  let mat ← J.field j "mat" (J.mat J.rat)
+  let sign ← J.field j "sign" (J.list J.rat)
+  let line ← J.field j "line" (J.list J.rat)
+  let d2 ← J.field j "d2" (J.list (J.opt J.rat))
+  let rel ← J.field j "rel" J.rat
+  let abs_ ← J.field j "abs" J.rat
+  let ok := Pareto.Q.specDist rel abs_ mat sign line d2
+  let want := Pareto.Q.geoDist mat sign line
+  let detail : String :=
+    if ok then "definition ok" else
+    if d2.any Option.isNone then "non-finite distance" else
+    if d2.length != want.length then s!"{d2.length} distances for {want.length} points" else
+    match ((List.zip d2 want).zipIdx.filter (fun p => match p.1.1 with
+        | some x => !Pareto.closeTol rel abs_ x p.1.2
+        | none => true)).head? with
+    | some ((x, w), i) => s!"point {i}: distance^2 {(J.ofOpt J.ofRat x).compress} != definition {(J.ofRat w).compress}"
+    | none => "?"
+  pure <| J.obj [("ok", J.ofBool ok), ("detail", J.ofStr detail), ("want", J.ofList J.ofRat want)]
 
 def ops : List (String × J.Op) :=
   [("c19.pareto", opPareto), ("c19.spec_pareto", opSpecPareto),
-   ("c19.dominates", opDominates), ("c19.dist", opDist)]
+   ("c19.dominates", opDominates), ("c19.dist", opDist), ("c19.spec_dist", opSpecDist)]
 
 end Drv.C19
